@@ -74,9 +74,12 @@ CHECKS = {
              "properties, never _x, class/static methods, __new__, __repr__, __getattribute__, and __setattr__ only on "
              "request (C03_selection over Model/Elab.v). Tie: pinned invariant-wrapper skeletons; run-time "
              "correspondence (methods, properties, __init__ with invariants) and definition histories whose wrapped "
-             "members are compared with the must-wrap rule computed from the declarations (spec_C03_selection).",
-        note=TB + "Partial: histories of operations and nested constructors (super().__init__ at any position) are "
-             "covered by the Run model for one class per instance; kf_C03_newstyle (D4b) is a known finding.",
+             "members are compared with the must-wrap rule computed from the declarations (spec_C03_selection); "
+             "constructor chains (Model/Ctor.v): whatever the constructors do with super().__init__(), K() runs every body "
+             "first and only then evaluates the invariants of the class on the finished object "
+             "(C03_outermost_constructor), chains of 1-4 classes against the library (spec_C03_ctor).",
+        note=TB + "Partial: histories of operations on one instance are covered by the Run model (C10/C11) for one class "
+             "per instance; kf_C03_newstyle (D4b) is a known finding.",
         design="DESIGN.md section 6 C03"),
     "C04": dict(
         text="Theorems: the merge at class creation denotes OR over inherited and own precondition groups (C04_pre_or), "
